@@ -527,6 +527,7 @@ func init() {
 		c.Assume = append(c.Assume, "byte-level space covered as a structured alphabet, not arbitrary byte strings (fuzzing is out of family)", "virtual time; spin = more than 60000 scheduling points in one execution", "default schedule (C08 covers schedules of faults)")
 		c.Enumerate("c07/adversarial")
 		c.Enumerate("c07/result-shapes")
+		c.Enumerate("c07/handler-calls-back")
 		for _, bc := range c07BurstCases() {
 			c.DFS("c07/ls/connect-burst/"+bc.Elem.Name, explore.Bounds{Preempt: c.Pick(2, 3), Dev: 0, POR: true, MaxExec: c.Pick(3000, 100000)})
 		}
@@ -741,4 +742,112 @@ func init() {
 	RegisterEnum(&Enum{Name: "c07/result-shapes", Doc: "well-formed responses whose result is a structural mutation of a valid result (every node := null / each other JSON type / [null] / [[]], every key removed) for ListTools, CallTool, ListPrompts, GetPrompt, ListResources, ReadResource on 4 client flavours: no panic in the typed decoders, the call returns, a later exchange works, Close returns",
 		Count: func(string) int { return len(c07ShapeCases()) },
 		Eval:  func(tier string, i int) CaseResult { return c07ShapeEval(c07ShapeCases()[i]) }})
+}
+
+// ---- a notification handler that uses the client ------------------------------------------------
+//
+// "other pending and later calls on the same client still complete": a tools/list_changed handler
+// does what such handlers do - it asks the server for the new list, on the client it belongs to,
+// while another call of the application is pending. The frames that answer both are well-formed;
+// both calls complete.
+func c07HandlerCallsBack(tier string, i int) CaseResult {
+	mode := []string{"sj", "ss", "io"}[i]
+	cr := CaseResult{Desc: "client=" + mode + ": a notification handler calls ListTools on its own client while a call is pending", Nontrivial: true}
+	var viol []explore.Violation
+	obs := &hx.Log{}
+	k := func(s string) string { return fmt.Sprintf("%s:handler-calls-back:%s", s, mode) }
+	res := vsched.Run(vsched.Config{MaxSteps: 60000}, func() {
+		ss := newScriptedServer(mode)
+		release := &hx.Flag{}
+		pendingID := ""
+		ss.onRequest = func(msg map[string]interface{}, rawMsg string, w scriptWriter) bool {
+			method, _ := msg["method"].(string)
+			id := rawID([]byte(rawMsg))
+			switch {
+			case id == "" || method == "initialize":
+				return false
+			case method == "tools/list":
+				w.Frame(fmt.Sprintf(`{"jsonrpc":"2.0","id":%s,"result":{"tools":[{"name":"new-tool","inputSchema":{"type":"object"}}]}}`, id))
+			case mode == "io":
+				pendingID = id // (the scripted stdio server is one loop: it must not block; the answer is written later)
+			default:
+				// the application's own call: answered once the scenario says so
+				vsched.BlockObjs("scripted server holds the answer to the pending call", ctxProbe{context.Background(), release}, []uintptr{uintptr(unsafe.Pointer(release))}, true)
+				w.Frame(fmt.Sprintf(`{"jsonrpc":"2.0","id":%s,"result":{"content":[{"type":"text","text":"pending-call-answer"}]}}`, id))
+			}
+			return true
+		}
+		cl, err := ss.connect(mcp.WithClientGetSSEEnabled(true))
+		if err != nil {
+			viol = append(viol, V("setup-handshake-fails", "setting the scenario up with well-behaved peers fails: %v", err))
+			return
+		}
+		entered, finished := &hx.Flag{}, &hx.Flag{}
+		var inner error
+		var listed int
+		cl.RegisterNotificationHandler("notifications/tools/list_changed", func(n *mcp.JSONRPCNotification) error {
+			entered.Set()
+			lt, e := cl.ListTools(context.Background(), &mcp.ListToolsRequest{})
+			inner = e
+			if lt != nil {
+				listed = len(lt.Tools)
+			}
+			finished.Set()
+			return nil
+		})
+		vsched.Quiesce()
+		var out *mcp.CallToolResult
+		var cerr error
+		done := &hx.Flag{}
+		vsched.Go("pending-call", func() {
+			rq := &mcp.CallToolRequest{}
+			rq.Params.Name = "slow"
+			out, cerr = cl.CallTool(context.Background(), rq)
+			done.Set()
+		})
+		vsched.Quiesce()
+		w := ss.background()
+		if w == nil {
+			viol = append(viol, V("harness", "no background stream"))
+			return
+		}
+		w.Frame(`{"jsonrpc":"2.0","method":"notifications/tools/list_changed"}`)
+		vsched.Quiesce()
+		obs.Add("entered=%v finished=%v", entered.Get(), finished.Get())
+		switch {
+		case !entered.Get():
+			viol = append(viol, V("harness", "the notification handler was never called"))
+		case !finished.Get():
+			viol = append(viol, V(k("handler-call-hangs"), "the handler's ListTools, made on its own client while another call is pending, does not return although the server answered it; blocked: %v", vsched.LiveThreads()))
+		case inner != nil || listed != 1:
+			viol = append(viol, V(k("handler-call-fails"), "the handler's ListTools returned %d tools, %v", listed, inner))
+		}
+		release.Set()
+		if pendingID != "" {
+			ss.background().Frame(fmt.Sprintf(`{"jsonrpc":"2.0","id":%s,"result":{"content":[{"type":"text","text":"pending-call-answer"}]}}`, pendingID))
+		}
+		vsched.Quiesce()
+		if !done.Get() {
+			viol = append(viol, V(k("pending-call-hangs"), "the application's pending call never returned although the server answered it; blocked: %v", vsched.LiveThreads()))
+		} else if cerr != nil || TextOf(out) != "pending-call-answer" {
+			viol = append(viol, V(k("pending-call-fails"), "the application's pending call returned %q, %v", TextOf(out), cerr))
+		}
+		closed := &hx.Flag{}
+		vsched.Go("close", func() { cl.Close(); closed.Set() })
+		vsched.Quiesce()
+		if !closed.Get() {
+			viol = append(viol, V(k("close-hangs"), "Close did not return; blocked: %v", vsched.LiveThreads()))
+		}
+		ss.stop()
+	})
+	o := finishOutcome(res, obs, viol, true)
+	cr.ObsKey = cr.Desc + "|" + o.ObsKey
+	cr.Violations = o.Violations
+	cr.Broken = o.Broken
+	return cr
+}
+
+func init() {
+	RegisterEnum(&Enum{Name: "c07/handler-calls-back", Doc: "a tools/list_changed handler calls ListTools on its own client while another call is pending (Streamable with JSON / SSE answers, stdio): both calls complete with their answers, Close returns",
+		Count: func(string) int { return 3 }, Eval: c07HandlerCallsBack})
 }
